@@ -568,6 +568,25 @@ def ill_typed_edits(src, sites, decl_info, rng, per_class=3):
         out.append(("unbound-covariable", _replace_site(src, i, "zz_unbound_k")))
     for i in pick("goto", lambda m: m["prdvars"]):
         out.append(("variable-as-goto-target", _replace_site(src, i, sites[i]["prdvars"][0])))
+    # a producer binding that shadows the covariable of the same name: the right-most binding decides, so the goto is ill-typed
+    for i in pick("goto"):
+        a, b = "⟦%d⟧" % i, "⟦/%d⟧" % i
+        p0, q0 = src.index(a), src.index(b)
+        g0 = src.rfind("goto ", 0, p0)
+        o = src.index("(", q0)
+        depth, j = 0, o
+        while True:
+            depth += {"(": 1, ")": -1}.get(src[j], 0)
+            if depth == 0:
+                break
+            j += 1
+        k = src[p0 + len(a):q0]
+        out.append(("producer-shadows-goto-target", src[:g0] + "(let %s: i64 = 0; goto %s %s)" % (k, k, src[o:j + 1]) + src[j + 1:]))
+    # and the converse: a label binder shadows the variable of the same name, which is then used as a term
+    for i in pick("var"):
+        a, b = "⟦%d⟧" % i, "⟦/%d⟧" % i
+        v = src[src.index(a) + len(a):src.index(b)]
+        out.append(("covariable-shadows-variable", _replace_site(src, i, "(label %s { %s })" % (v, v))))
     for i in pick("callee"):
         out.append(("undefined-definition", _replace_site(src, i, "zz_undefined_f")))
     for i in pick("clauses", lambda m: len(m["clauses"]) >= 1):
